@@ -8,7 +8,8 @@ long-lived schema object; after every call the verdict, the errors and the data 
 the same call on a fresh schema.  A disagreement that is exactly what the implementation-shaped
 variant predicts is the known finding F-C10-a; anything else is a violation.  Seeded histories over
 the pool schemas (content models, attributes, xsi:type/nil, identities; strict failures, lazy runs,
-stop-validation hooks, to_objects) look for any other cross-call residue.
+stop-validation hooks, skip-mode decoding, to_objects; random and pair-complete) look for any other
+cross-call residue.
 """
 from __future__ import annotations
 
@@ -57,6 +58,8 @@ def call(schema, op, xml):
     if op == "decode_lax":
         data, errs = schema.decode(xml, validation="lax")
         return bool(errs), ("lax", repr(data), keys(errs))
+    if op == "decode_skip":
+        return False, ("skip", repr(schema.decode(xml, validation="skip")))
     if op == "validate":
         try:
             schema.validate(xml)
@@ -122,7 +125,24 @@ def replay_history(job):
     return out
 
 
-OPS = ["is_valid", "iter_errors", "decode_lax", "validate", "lazy", "objects", "hook"]
+OPS = ["is_valid", "iter_errors", "decode_lax", "validate", "lazy", "objects", "hook", "decode_skip"]
+
+
+def pair_complete(docs, rng, rounds):
+    """A call sequence in which every ordered pair of documents occurs as two consecutive calls (per round,
+    with the operations of the two calls rotating through all ordered pairs of operations)."""
+    docs = docs[:6]
+    pairs = [(a, b) for a in docs for b in docs]
+    ops = [(a, b) for a in OPS for b in OPS]
+    rng.shuffle(ops)
+    seq, k = [], 0
+    for _ in range(rounds):
+        rng.shuffle(pairs)
+        for a, b in pairs:
+            oa, ob = ops[k % len(ops)]
+            k += 1
+            seq += [(oa, a), (ob, b)]
+    return seq
 
 
 def pool_history(job):
@@ -131,9 +151,9 @@ def pool_history(job):
     schema = load(ver, xsds)
     out = []
     steps = []
-    for i in range(length):
-        op = rng.choice(OPS)
-        xml = rng.choice(docs)
+    plan = [(rng.choice(OPS), rng.choice(docs)) for _ in range(8)] if length <= 8 else \
+        pair_complete(docs, rng, length // 64 or 1)
+    for i, (op, xml) in enumerate(plan):
         steps.append((op, xml))
         try:
             got = call(schema, op, xml)
@@ -178,6 +198,11 @@ def run(ctx: Ctx):
     rng.shuffle(groups)
     groups = groups[: (400 if thorough else 80)]
     pjobs = [(ver, x, d, ctx.seed * 7919 + k, 8) for k, (x, d) in enumerate(groups) for ver in ("1.0", "1.1")]
+    # pair-complete histories: every ordered pair of documents of a group as two consecutive calls
+    rng.shuffle(groups)
+    simple = [g for g in sorted(by.items()) if "simpleType" in g[0][0] and len(set(g[1])) >= 2]
+    for k, (x, d) in enumerate([(x, sorted(set(d))) for x, d in simple] + groups[: (60 if thorough else 12)]):
+        pjobs.append(("1.0" if k % 2 else "1.1", x, d, ctx.seed * 104729 + k, 256 if thorough else 64))
     ncalls = 0
     for (ver, x, d, seed, ln), (bad, k) in zip(pjobs, ctx.pmap(pool_history, pjobs)):
         ncalls += k
@@ -192,8 +217,10 @@ def run(ctx: Ctx):
     ctx.exhaustive = thorough
     ctx.rule = ("call histories of length 3 over 5 operations x 6 documents of the xsi:type/identity scenario "
                 "(27 000, every 3rd in quick) as enumerated by TLC, each replayed on one schema object and "
-                "compared step by step with a fresh schema; plus seeded histories of 8 calls (7 operations "
-                "incl. strict failures, lazy runs, stop hooks, to_objects) over pool schemas")
+                "compared step by step with a fresh schema; plus seeded histories of 8 calls (8 operations "
+                "incl. strict failures, skip-mode decoding, lazy runs, stop hooks, to_objects) over pool schemas, "
+                "plus pair-complete histories (every ordered pair of up to 6 documents of a schema as consecutive "
+                "calls, operation pairs rotating) over all simple-type schemas and a seeded selection of the others")
     ctx.assumptions += ["the fresh schema's answer is the reference (and is itself compared with the "
                         "specification's intended verdict in the scenario)",
                         "pool content-model schemas that are not strongly deterministic are left out "
